@@ -56,22 +56,23 @@ theorem tr_pollSet_eq (s : St) (i : Id) (ev : Flags) :
     by_cases he : old = ev
     · simp [PPoll, hso, he]
     · cases hse : lookup s.selected i with
-      | none => simp [PPoll, hso, he, hse]
+      | none => by_cases hsel : s.selected = [] <;> simp [PPoll, hso, he, hse, hsel, lookup]
       | some sel =>
+        have hsel : s.selected ≠ [] := by intro h; simp [h, lookup] at hse
         have h1 := lookup_setId_self s.selected i (sel.minus (old.minus ev)) sel hse
         by_cases hz : (sel.minus (old.minus ev)).isZero = true
         · have hz' : sel.minus (old.minus ev) = ({} : Flags) := (flags_isZero_iff _).2 hz
           rw [hz'] at h1
-          simp [PPoll, hso, he, hse, minus_eq, h1, hz', eraseId_setId, Flags.isZero]
+          simp [PPoll, hso, he, hse, hsel, minus_eq, h1, hz', eraseId_setId, Flags.isZero]
         · have hz' : ¬ sel.minus (old.minus ev) = ({} : Flags) := fun h => hz ((flags_isZero_iff _).1 h)
-          simp [PPoll, hso, he, hse, minus_eq, h1, hz, hz']
+          simp [PPoll, hso, he, hse, hsel, minus_eq, h1, hz, hz']
 
 /-- `Poll::Private::remove(socket)` (translated) = the model's `pollRemove` (+ one EPOLL_CTL_DEL iff registered) -/
 theorem tr_pollRemove_eq (s : St) (i : Id) :
     (ServerTr.pollRemove (PPoll i) ⟨s, []⟩).st = pollRemove s i ∧
     (ServerTr.pollRemove (PPoll i) ⟨s, []⟩).ctl = (if (lookup s.sockets i).isSome then [(2, {})] else []) := by
   unfold ServerTr.pollRemove pollRemove
-  cases hso : lookup s.sockets i <;> simp [PPoll, hso]
+  cases hso : lookup s.sockets i <;> by_cases hsel : s.selected = [] <;> simp [PPoll, hso, hsel, eraseId]
 
 /-- one iteration of the timer loop (translated) = the `.timers` case of the model's `step`: the loop is left exactly when the
     model moves on to the closing loop; otherwise the front entry is popped, a user timer is re-queued at
